@@ -70,6 +70,10 @@ CHECKS = {
    text="After PRNG histories of dependency / config / endpoint updates (address in both lists, removal-only updates, duplicates, invalid configs later corrected, unknown and removed services, static services) and once a trailing sentinel service runs: exactly one started-and-not-stopped processor per service with a valid config and an endpoint list in the store, none otherwise, its config Equal to the store's and its host set (address, type) equal to the store's endpoints.",
    note="The store's MarshalJSON view is taken as the configured state; services whose latest config is invalid are judged only on not disturbing others. Recording processors are registered under protocol.MySQL through the public registry.",
    ref="DESIGN.md section 4 C08"),
+ "C05": dict(level="exploration", technique="byte-stream equality + EOF-ordering oracle at both ends of real relayed connections (each receiver recomputes the sender's PRNG stream incrementally), over lengths around the 16 KiB pool buffer, chunkings, pacing, back-pressure and close orders; plain and -race SUT (scope proc/tcp/proc.go)",
+   text="For hundreds (thousands in thorough) of connections, 1-128 at a time, each direction's receiver must get exactly the sender's stream (first differing offset reported), see end-of-stream only after the last byte, and the opposite direction must keep flowing after a half-close; on an abrupt close by one side the other must see a prefix then EOF/reset, never foreign bytes (cross-talk through pooled buffers shows as a mismatch).",
+   note="Trusted: the streaming PRNG generator (cut-independent), the 8-byte connection id relayed first. Idle timeouts are left at their default (10 min).",
+   ref="DESIGN.md section 4 C05"),
 }
 NOT_BUILT = "check not built yet in this session (design in DESIGN.md section 4)"
 
